@@ -361,6 +361,22 @@ func (g *ogen) node(d int, allowFail bool) onode {
 			src := "{{try}}" + body.src + "{{try}}LEAK" + b2.src + f1.src + "{{catch}}" + c1.src + f2.src + "{{end}}" + g.dead(0).src + "{{catch}}"
 			return cat(wrap(src, c2, "{{end}}"), wrap("{{try}}", after, "{{end}}"))
 		}
+		if r.Chance(15) && g.ctxOK {
+			// a try without catch swallows the failure and still restores '.', the scopes and the content,
+			// wherever the failure was raised (range body, if-let, block with arguments)
+			fr := r.Pick([]string{"{{range li}}{{q9 := 1}}{{ nope }}{{end}}", "{{if q9 := 2; true}}{{ li[9] }}{{end}}", "{{range k, q9 := ms}}{{ st.Missing }}{{end}}"})
+			return onode{src: "{{try}}" + body.src + fr + g.dead(0).src + "{{end}}[{{.}}|{{isset(q9)}}|{{ia}}]",
+				out: "[" + g.ctxOut + "|" + g.E("false") + "|" + g.E(g.intVals["ia"]) + "]", failOff: -1}
+		}
+		if r.Chance(10) {
+			// a thousand includes failing inside try (at run time, inside the included template) leave nothing
+			// behind: the next include still works
+			g.nfile++
+			name := fmt.Sprintf("/inct%d.jet", g.nfile)
+			g.p.files[name] = "I"
+			g.p.files["/incfails.jet"] = "{{if true}}{{ nope.x }}{{end}}"
+			return onode{src: fmt.Sprintf("{{range ints(0, 1003)}}{{try}}{{include \"/incfails.jet\"}}{{catch}}{{end}}{{end}}<{{include %q}}>", name), out: "<I>", failOff: -1}
+		}
 		c := g.seq(d-1, allowFail)
 		f := g.failing()
 		if r.Chance(20) {
@@ -469,6 +485,28 @@ func (g *ogen) node(d int, allowFail bool) onode {
 			page := fmt.Sprintf("/page%d.jet", g.nfile)
 			g.p.files[lay] = "L<{{block body()}}DEADdefault{{end}}>"
 			g.p.files[page] = fmt.Sprintf("{{extends %q}}DEADtext{{block body()}}page:{{.}}{{end}}", lay)
+			if r.Chance(40) {
+				// ... also two levels below the layout: the root ancestor's body renders, and exec returns
+				// the root ancestor's value
+				mid := fmt.Sprintf("/mid%d.jet", g.nfile)
+				k3 := r.Intn(3)
+				ret := func(n int) string {
+					if k3 == 2 {
+						return fmt.Sprintf("{{return %d}}", n) // only the exec variant returns (a return ends the includer's list too)
+					}
+					return ""
+				}
+				g.p.files[lay] = "L<{{block body()}}DEADdefault{{end}}>" + ret(7)
+				g.p.files[mid] = fmt.Sprintf("{{extends %q}}DEADmid{{block body()}}DEADmidbody{{end}}", lay) + ret(8)
+				g.p.files[page] = fmt.Sprintf("{{extends %q}}DEADtext{{block body()}}page:{{.}}{{end}}", mid) + ret(9)
+				switch k3 {
+				case 0:
+					return onode{src: fmt.Sprintf("{{include %q ia}}", page), out: "L<page:" + g.E(g.intVals["ia"]) + ">", failOff: -1}
+				case 1:
+					return onode{src: fmt.Sprintf("{{ includeIfExists(%q, ia) }}", page), out: "L<page:" + g.E(g.intVals["ia"]) + ">", failOff: -1}
+				}
+				return onode{src: fmt.Sprintf("[{{ exec(%q, ia) }}]", page), out: "[" + g.E(7) + "]", failOff: -1}
+			}
 			switch r.Intn(3) {
 			case 0:
 				return onode{src: fmt.Sprintf("{{include %q ia}}", page), out: "L<page:" + g.E(g.intVals["ia"]) + ">", failOff: -1}
@@ -480,7 +518,20 @@ func (g *ogen) node(d int, allowFail bool) onode {
 			v := g.freshVar()
 			return onode{src: fmt.Sprintf("{{ %s := \"kept\" }}{{try}}DEAD{{ nope }}{{catch %s}}c{{end}}[{{%s}}]{{try}}{{ nope }}{{catch sa}}d{{end}}[{{sa}}]", v, v, v),
 				out: "c[" + g.E("kept") + "]d[" + g.escape(g.strVals["sa"]) + "]", failOff: -1}
-		case 4: // isset with empty-string keys and indexes
+		case 4: // isset with empty-string keys and indexes; isset of the context itself and of indexes into it
+			if r.Bool() {
+				src := "{{range li}}{{ isset(.) }}{{end}}|{{range ms}}{{ isset(.[\"Name\"]) }}{{ isset(.[\"Nope\"]) }}{{end}}|"
+				out := g.E("true") + g.E("true") + g.E("true") + "|" + g.E("true") + g.E("false") + g.E("true") + g.E("false") + g.E("true") + g.E("false") + "|"
+				if g.ctxOK {
+					src += "{{ isset(.) }}"
+					if g.ctxOut == "" {
+						out += g.E("false") // no data: '.' is nil
+					} else {
+						out += g.E("true")
+					}
+				}
+				return onode{src: src, out: out, failOff: -1}
+			}
 			return onode{src: "{{ isset(me[\"\"]) }}{{ isset(me[e]) }}{{ isset(m[\"\"]) }}{{ isset(me.k) }}", out: g.E("true") + g.E("true") + g.E("false") + g.E("true"), failOff: -1}
 		default: // comments and trim markers spanning lines (they must not shift reported lines)
 			switch r.Intn(3) {
